@@ -158,7 +158,8 @@ pub fn run(case: &Value, ctx: &Ctx) -> Outcome {
                 // nothing but what the model allows before the failure (at most the header line), and never a row
                 let got = String::from_utf8_lossy(&r.stdout).to_string();
                 let got_lines: Vec<&str> = got.lines().collect();
-                out.check(!r.ok() && got_lines == want_lines && !r.stderr.trim().is_empty(), || "stats/layout/error-case".into(), || json!({"args": args, "code": r.code, "stdout": String::from_utf8_lossy(&r.stdout), "stderr": r.stderr}));
+                // (a tool that computes everything first and writes nothing at all on failure is just as right)
+                out.check(!r.ok() && (got_lines == want_lines || got_lines.is_empty()) && !r.stderr.trim().is_empty(), || "stats/layout/error-case".into(), || json!({"args": args, "code": r.code, "stdout": String::from_utf8_lossy(&r.stdout), "stderr": r.stderr}));
             }
         }
         other => out.fail("stats/unknown-kind", json!(other)),
